@@ -360,6 +360,28 @@ func run(c *mon.Ctx) {
 		})
 		c.Class("concurrent-readers-of-one-header")
 	})
+	// PES packets of video streams are unbounded (PES_packet_length 0): the bytes that follow the header are the data,
+	// however many there are (64 KiB and more when a caller hands over a whole access unit)
+	c.StreamSeedless("large-pes-data", 8, func(i int, r *gen.Rand) {
+		h := genPES(r, 0xe0+i, []byte{0, 2, 3}[i%3])
+		h.PacketLen = 0
+		h.Payload = r.Bytes([]int{65535, 65536, 65537, 70000, 131072, 200000, 65536 - 9, 65536 + 19}[i])
+		b, hdrEnd := h.Bytes()
+		ph, err := pes.NewPESHeader(b)
+		c.Eval(1)
+		c.Count("large_pes_data.cases")
+		if err != nil || ph == nil {
+			c.Fail("decode-error", fmt.Sprintf("NewPESHeader rejected a well-formed PES start with %d data bytes: %v", len(h.Payload), err), wit{"", shape(&h), fmt.Sprint(err)})
+			return
+		}
+		if d := ph.Data(); !bytes.Equal(d, b[hdrEnd:]) {
+			c.Fail("data-offset-large-data", fmt.Sprintf("Data() returned %d bytes, %d bytes follow the header", len(d), len(b)-hdrEnd), wit{"", shape(&h), fmt.Sprintf("%d data bytes", len(h.Payload))})
+		}
+		if ph.StreamId() != h.StreamID || ph.HasPTS() != (h.PTSDTS >= 2) || (h.PTSDTS >= 2 && ph.PTS() != h.PTS) || (h.PTSDTS == 3 && ph.DTS() != h.DTS) {
+			c.Fail("large-data-values", "stream id or timestamps of a PES start with a large payload differ from the encoded ones", wit{"", shape(&h), ""})
+		}
+		c.Class(fmt.Sprintf("large-data/%d", len(h.Payload)/60000))
+	})
 	c.Stream("by-stream-id", 256, func(sid int, r *gen.Rand) {
 		for k := 0; k < per; k++ {
 			h := genPES(r, sid, []byte{0, 2, 3}[k%3])
